@@ -1,12 +1,13 @@
 """C13 Coarse asset frequency and periodicity."""
 from ..comp import periodic as PE
 from ..comp import coarsebuild as CB
+from ..comp import coarsestorage as CS
 
 ID = 'C13'
 THEOREMS = PE.THEOREMS + [
     ('EAO.Properties.C19', 'EAO.C19.coarse_partition_whole', 'a coarse window that is a whole number of coarse steps partitions the fine steps without loss (sum of dt preserved)'),
 ]
-THEOREMS = THEOREMS + CB.THEOREMS_C13_BUILDERS
+THEOREMS = THEOREMS + CB.THEOREMS_C13_BUILDERS + CS.THEOREMS_C13_STORAGE
 PARTIAL = ['makePeriodic_is_merge / makePeriodic_equiv need the groups to form a partition of the variables (one group per variable, a transport\'s two nodes, coarse AND periodic with period/duration multiples of the coarse step); without it the code itself is wrong (known finding F-13f, machine-checked counterexample periodic_groups_complete_counterexample)',
            'the averaging of prices over the minor steps and the first-minor-step sampling of capacities/discount are part of the BUILDERS with freq (SimpleContract, Transport, Storage): tied by the correspondence of extendMinor / makePeriodic on recorded calls and by the fine-plus-equalities oracle (windows inside the horizon only as whole numbers of coarse steps: a remainder is known finding F-19b), not by a builder theorem',
            'stepLabels is the literal model of the code\'s counters: like the code it counts the positions of a partial first period from the grid start, so for an anchored period (W) on a grid that does not start on the anchor model and code agree with each other but not with the statement (known finding F-13m; the oracle counts by the clock)',
@@ -40,6 +41,11 @@ def scenarios(seed, tier):
     for i in range(n // 2):
         c = CB.gen_case(random.Random(rnd.getrandbits(48)))
         yield 'cb%d' % i, {'_stream': 'coarsebuild', 'case': c, 'seed': rnd.getrandbits(32)}
+    # the Storage builder WITH freq (all options) against its model, its fine comparison problem, the read-out (comp/coarsestorage.py)
+    rnd2 = random.Random(seed * 104729 + 1331)
+    for i in range(n // 3):
+        c = CS.gen_case(random.Random(rnd2.getrandbits(48)), malformed=(i % 5 == 4))
+        yield 'cs%d' % i, {'_stream': 'coarsestorage', 'case': c, 'seed': rnd2.getrandbits(32)}
 
 
 def run_case(case, drv):
@@ -48,6 +54,12 @@ def run_case(case, drv):
         rec = CB.run_case(case['case'], drv, random.Random(case['seed']))
         return {'evaluated': 1, 'nontrivial': bool(rec.get('nvars')), 'features': ['stream:coarsebuild', 'impl:' + str(rec.get('impl'))[:40]] + list(rec.get('features', [])),
                 'disagreements': [d if isinstance(d, dict) else {'component': 'coarse builder', 'detail': d} for d in rec['disagreements']],
+                'violations': rec['violations']}
+    if isinstance(case, dict) and case.get('_stream') == 'coarsestorage':
+        import random
+        rec = CS.run_case(case['case'], drv, random.Random(case['seed']))
+        return {'evaluated': 1, 'nontrivial': rec.get('impl') == 'ok', 'features': ['stream:coarsestorage', 'impl:' + str(rec.get('impl'))[:40]] + list(rec.get('features', [])),
+                'disagreements': [d if isinstance(d, dict) else {'component': 'coarse storage', 'detail': d} for d in rec['disagreements']],
                 'violations': rec['violations']}
     r = {'evaluated': 1, 'nontrivial': False, 'features': [], 'disagreements': [], 'violations': []}
     ir = PE.run_impl(case)
